@@ -165,4 +165,4 @@ def floors(st, tier):
     return ['class %r never observed' % c for c in REQUIRED if st['classes'].get(c, 0) == 0]
 
 
-extra_passes = thorough_aux('props.c02', ('miri',))
+extra_passes = thorough_aux('props.c02', ('miri',), exh=True)
